@@ -18,7 +18,7 @@ package dns
 // ===================================================================================================
 // session table of the DNS tunnel server (C13) and robustness of its message handlers (C12)
 
-//@ go func sameAddr(a, b net.Addr) bool { return a.String() == b.String() }
+//@ go func specSameAddr(a, b net.Addr) bool { return a.String() == b.String() }
 
 //@ go func connWF(u *userConnection) bool {
 //@    return u.Serializer.Upstream.Encoder != nil && u.Serializer.Downstream.Encoder != nil &&
@@ -52,8 +52,8 @@ package dns
 //@   requires srvWF(s) && userId < 1296 && remoteAddr != nil
 //@   modifies s.connections[userId].lastConnection
 //@   ensures srvWF(s)                                                                                   :table_kept
-//@   ensures err == nil ==> result != nil && result == s.connections[userId] && sameAddr(result.remoteAddress, remoteAddr)    :live_session_of_the_same_peer
-//@   ensures err != nil && result != nil && result == s.connections[userId] ==> !sameAddr(result.remoteAddress, remoteAddr)   :foreign_address_rejected
+//@   ensures err == nil ==> result != nil && result == s.connections[userId] && specSameAddr(result.remoteAddress, remoteAddr)    :live_session_of_the_same_peer
+//@   ensures err != nil && result != nil && result == s.connections[userId] ==> !specSameAddr(result.remoteAddress, remoteAddr)   :foreign_address_rejected
 //@   ensures err != nil && s.connections[userId] != nil ==> s.connections[userId].lastConnection == old(s.connections[userId].lastConnection)   :rejected_message_leaves_session_untouched
 //@   ensures err != nil ==> err == commands.BadIp || err == commands.BadConn || err == commands.BadUser   :tunnel_error_codes
 //@   ensures result != nil && err != commands.BadConn ==> connWF(result) && result.UserId == userId     :usable_session
